@@ -1,5 +1,5 @@
-"""Rewrite rules used only by unit U-RES (DESIGN.md 2.3: R14 for `.iter().any`, R15 for const tables, plus three
-small dialect rules R18-R20).  Same conventions as vlib/rules.py: every rule is local and syntactic, counts itself in
+"""Rewrite rules used only by unit U-RES (DESIGN.md 2.3: R14 for `.iter().any`, R15 for const tables, plus two
+small dialect rules RES1/RES2, numbered locally because vlib/rules.py keeps growing).  Same conventions as vlib/rules.py: every rule is local and syntactic, counts itself in
 `unit.rules`, and raises LostAnchor when a requested pattern is not there (exit 2, never an alarm)."""
 import re
 from vlib import rsparse
@@ -80,8 +80,8 @@ def r14_iter_any(elem_type, ensures, label=None):
     return rule
 
 
-def r18_assert_message(u, key, text):
-    """R18: assert!(COND, "fmt {x:?}")  ->  assert!(COND)
+def r_assert_message(u, key, text):
+    """RES1: assert!(COND, "fmt {x:?}")  ->  assert!(COND)
     The message is only evaluated on the panic path; the obligation (COND holds, i.e. no panic) is unchanged.
     Verus has no spec for core::fmt."""
     out, pos = [], 0
@@ -102,18 +102,18 @@ def r18_assert_message(u, key, text):
             elif t.kind == 'p' and t.text == ',' and depth == 0 and comma is None:
                 comma = t.start
         if endp is None:
-            raise LostAnchor('%s: R18 unbalanced assert!' % key)
+            raise LostAnchor('%s: RES1 unbalanced assert!' % key)
         if comma is None:
             continue
         out.append(text[pos:start + comma])
         pos = start + endp
-        u.rules['R18'] += 1
+        u.rules['RES1-assert-message'] += 1
     out.append(text[pos:])
     return ''.join(out)
 
 
-def r19_err_question(u, key, text):
-    """R19: `Err(E)?`  ->  `return Err(core::convert::From::from(E))`
+def r_err_question(u, key, text):
+    """RES2: `Err(E)?`  ->  `return Err(core::convert::From::from(E))`
     which is the definition of `?` applied to a value that is syntactically `Err(..)` (the Ok arm is dead).
     Needed where Verus cannot type the Ok arm of the desugaring (`Err(E)?` as the value of a match arm / tail)."""
     n = 0
@@ -132,6 +132,6 @@ def r19_err_question(u, key, text):
         i, close = site
         inner = text[toks[i + 1].end:toks[close].start]
         text = text[:toks[i].start] + 'return Err(core::convert::From::from(' + inner + '))' + text[toks[close + 1].end:]
-        u.rules['R19'] += 1
+        u.rules['RES2-err-question'] += 1
         n += 1
     return text
